@@ -782,4 +782,34 @@ escapable byte (it spins until the fuel is gone) -/
 example : (runLoop (fun cap _ src => escStep cap src) 2 1 100 ⟨[0x20], [], []⟩).buf = [0x20] := by
   decide +kernel
 
+/-! ### Consequences of the round trip: injectivity, size bounds, and what does not hold -/
+
+/-- escaping loses nothing: two strings with the same escaped form are the same string
+(corollary of `C16_roundtrip`; this is what makes an escaped localpart an *identifier*) -/
+theorem C16_escape_injective (s t : Bytes) (h : escape s = escape t) : s = t := by
+  rw [← C16_roundtrip s, ← C16_roundtrip t, h]
+
+theorem escByte_length (c : UInt8) : 1 ≤ (escByte c).length ∧ (escByte c).length ≤ 3 := by
+  unfold escByte; split <;> simp
+
+/-- size bounds of `jid.Escape`: never shorter, at most three times as long (the capacity the
+Go code may reserve; the streaming transformer's `ErrShortDst` threshold is 3 bytes) -/
+theorem C16_escape_length (s : Bytes) : s.length ≤ (escape s).length ∧ (escape s).length ≤ 3 * s.length := by
+  induction s with
+  | nil => simp [escape]
+  | cons c s ih =>
+    have h := escByte_length c
+    simp only [escape, List.flatMap_cons, List.length_append, List.length_cons] at ih ⊢
+    omega
+
+/-- `jid.Unescape` never makes a string longer -/
+theorem C16_unescape_length (s : Bytes) : (unescape s).length ≤ s.length := by
+  fun_induction unescape s <;> simp_all <;> omega
+
+/-- the other composition is *not* the identity: unescaping is not injective (a raw space and
+its escape unescape to the same string), so `escape (unescape t) = t` fails for a `t` with an
+unescaped character of the set -/
+theorem C16_unescape_not_injective :
+    unescape [0x20] = unescape [0x5c, 0x32, 0x30] ∧ escape (unescape [0x20]) ≠ [0x20] := by
+  decide
 end XmppModel.Props.C16
